@@ -42,9 +42,12 @@ pub enum TxEdit {
     AtrTypeForeignInput,
     /// ATR-typed transaction without input and with a Normal output (C01 only)
     AtrTypeMintNormalOutput,
+    /// an individually valid spend of the attacker's own output to the victim; C01 places it in a
+    /// block that already carries another valid spend of the same output (C01 only, block layer only)
+    TwiceInBlock,
 }
 /// edits that are judged by C01 only (kept out of TX_EDITS so that recorded edit indices stay stable)
-pub const TX_EDITS_EXTRA: [TxEdit; 5] = [TxEdit::OffChainInput, TxEdit::StakeTypeNoInput, TxEdit::StakeTypeForeignInput, TxEdit::AtrTypeForeignInput, TxEdit::AtrTypeMintNormalOutput];
+pub const TX_EDITS_EXTRA: [TxEdit; 6] = [TxEdit::OffChainInput, TxEdit::StakeTypeNoInput, TxEdit::StakeTypeForeignInput, TxEdit::AtrTypeForeignInput, TxEdit::AtrTypeMintNormalOutput, TxEdit::TwiceInBlock];
 pub const TX_EDITS: [TxEdit; 19] = [
     TxEdit::ForgedSig,
     TxEdit::NoSig,
@@ -287,6 +290,11 @@ pub fn edited_tx(e: TxEdit, c: &EditCtx) -> Option<Transaction> {
             t.sign(&att.1);
             t.generate(&att.0, 0, 0);
             Some(t)
+        }
+        TxEdit::TwiceInBlock => {
+            let a = a0?;
+            let amt = a.amount;
+            Some(tx_from_inputs(vec![a], vec![out(vic.0, amt)], &att, c.ts + 1, vec![]))
         }
         TxEdit::DupInputInTx => {
             let a = a0?;
